@@ -188,6 +188,9 @@ HOSTILE = ('abzAZ09._+-,:=@~/ \t\\\n\r\x00\x01\x0b\x0c\x1c\x1f\x7f\x80\x85\x9f'
 LOOKALIKES = ['\\u00e9', '\\x41', '\\U0001F600', '\\x5C', '\\x5Cx41',
               '\\\\u0041', '\\x5Cu00e9', '\\ud800', '\\x2F']
 
+SURROGATE_RUNS = ['\ud83d\ude00', '\ud800\udc00', '\udbff\udfff',
+                  '\ude00\ud83d', '\ud83d\ud83d\ude00', '\ud83dx\ude00']
+
 path_chars = st.one_of(
     st.sampled_from(HOSTILE),
     st.sampled_from(HOSTILE),
@@ -202,6 +205,11 @@ def rel_path(draw, allow_slash=True, surrogates=True):
     if draw(st.integers(0, 3)) == 0:
         chars.insert(draw(st.integers(0, len(chars))),
                      draw(st.sampled_from(LOOKALIKES)))
+    if surrogates and draw(st.integers(0, 5)) == 0:
+        # two lone surrogates that happen to be neighbours are still two
+        # characters, not the astral character a UTF-16 decoder makes of them
+        chars.insert(draw(st.integers(0, len(chars))),
+                     draw(st.sampled_from(SURROGATE_RUNS)))
     s = ''.join(chars)
     if not surrogates:
         s = ''.join(c for c in s if not 0xD800 <= ord(c) <= 0xDFFF) or 'q'
@@ -356,6 +364,90 @@ def run_files(desc):
     return ok(nontrivial=nontrivial, classes=classes)
 
 
+# --- through the tree loader, in a process with a non-UTF-8 locale -----------
+
+LOCALE_ENV = {'LC_ALL': 'C', 'LANG': 'C', 'PYTHONUTF8': '0',
+              'PYTHONCOERCECLOCALE': '0', 'PYTHONHASHSEED': '0'}
+
+
+def strat_locale(tier):
+    return st.fixed_dictionaries({
+        'entries': st.lists(entry_desc(surrogates=False), min_size=1,
+                            max_size=6),
+        'fmts': st.lists(st.sampled_from(['', 'gz', 'bz2', 'lzma', 'xz']),
+                         min_size=2, max_size=3, unique=True),
+    })
+
+
+def run_locale(desc):
+    import json
+    import subprocess
+    import sys
+    try:
+        entries = [build_entry(d) for d in desc['entries']]
+    except (OverflowError, ValueError):
+        return skip('timestamp-out-of-range')
+    m = ManifestFile()
+    m.entries = list(entries)
+    ref = io.StringIO()
+    m.dump(ref, sign_openpgp=False)
+    want_text = ref.getvalue()
+    want = [list(ekey(e)) for e in entries]
+    d = harness.fresh_dir('c08l')
+    try:
+        job = {'repo': harness.REPO, 'dir': d, 'fmts': desc['fmts'],
+               'entries': desc['entries']}
+        env = {k: v for k, v in os.environ.items()
+               if not k.startswith('LC_') and k not in ('LANG', 'LANGUAGE')}
+        env.update(LOCALE_ENV)
+        p = subprocess.run(
+            [sys.executable, os.path.join(harness.LIB, 'locale_child.py')],
+            input=json.dumps(job).encode('ascii'), capture_output=True,
+            env=env)
+        if p.returncode != 0:
+            raise RuntimeError('locale child failed: '
+                               + p.stderr.decode('utf8', 'replace')[-2000:])
+        out = json.loads(p.stdout.decode('ascii'))
+        nonascii = any(ord(c) > 127 for c in want_text)
+        classes = ['child-encoding:' + out['encoding'],
+                   'non-ascii' if nonascii else 'ascii-only']
+        if out['encoding'].lower().replace('-', '') in ('utf8',):
+            return skip('child-locale-is-utf8')
+        for res in out['results']:
+            fmt = res['fmt'] or 'plain'
+            classes.append('fmt:' + fmt)
+            what = (f'{fmt} Manifest with entries {want!r} saved and '
+                    f'reloaded by ManifestRecursiveLoader in a process whose '
+                    f'locale encoding is {out["encoding"]}')
+            if 'error' in res:
+                return violation(f'{what}: {res["error"]}',
+                                 sig='locale:error', classes=classes)
+            try:
+                ondisk = R.decompress(bytes.fromhex(res['raw']),
+                                      res['fmt']).decode('utf8')
+            except Exception as e:
+                return violation(f'{what}: the file is not UTF-8 text: {e!r}',
+                                 sig='locale:file-not-utf8', classes=classes)
+            if ondisk != want_text:
+                return violation(
+                    f'{what}: the file holds {ondisk!r}, expected '
+                    f'{want_text!r}', sig='locale:file-text-differs',
+                    classes=classes)
+            back = [[tuple(y) if isinstance(y, list) else y for y in x]
+                    for x in res['back']]
+            exp = [[tuple(tuple(z) for z in y) if isinstance(y, tuple) else y
+                    for y in x] for x in want]
+            back = [[tuple(tuple(z) for z in y) if isinstance(y, tuple)
+                     else y for y in x] for x in back]
+            if back != exp:
+                return violation(f'{what}: loads back as {back!r}',
+                                 sig='locale:roundtrip-mismatch',
+                                 classes=classes)
+    finally:
+        harness.rmtree(d)
+    return ok(nontrivial=nonascii, classes=classes)
+
+
 # --- canonical fixed point ---------------------------------------------------
 
 def strat_fixedpoint(tier):
@@ -407,6 +499,9 @@ def run_fixedpoint(desc):
 PARTS = [
     Part('codepoints', run_codepoints, enumerate=enum_codepoints,
          exhaustive=True, budget={'quick': 120, 'thorough': 900}),
+    Part('locale', run_locale, strategy=strat_locale,
+         examples={'quick': 1200, 'thorough': 40000},
+         budget={'quick': 40, 'thorough': 400}),
     Part('entries', run_entries, strategy=strat_entries,
          examples={'quick': 12000, 'thorough': 300000},
          budget={'quick': 40, 'thorough': 500}),
